@@ -4,7 +4,8 @@ open VibeProof VibeProof.Proto VibeProof.Codec VibeProof.Ddl
 
 /-
 request `trace (OP…)`; reply `(trace STEP…)`, STEP = `(ERR (catalog (N (col…))…) (stored (N (col…) (ROW…))…) (reg (I N (col…))…))`
-one STEP after every op.  OP: `(ct N (col…))` `(dt N)` `(ci I N (col…))` `(di I)` `(ins N ROW)` `(clr N)` `(ac N C)` `(dc N C)`
+one STEP after every op.  index names travel as hex; the registry key normalisation is `String.toUpper`.
+OP: `(ct N (col…))` `(dt N)` `(ci I N (col…))` `(di I)` `(ins N ROW)` `(clr N)` `(ac N C)` `(dc N C)`
 -/
 def decNames : Sx → Option (List String)
   | .list xs => xs.mapM Sx.atom?
@@ -13,8 +14,10 @@ def decNames : Sx → Option (List String)
 def decOp : Sx → Option DOp
   | .list [.atom "ct", .atom n, cols] => do pure (.createTable n (← decNames cols))
   | .list [.atom "dt", .atom n] => some (.dropTable n)
-  | .list [.atom "ci", .atom i, .atom n, cols] => do pure (.createIndex i n (← decNames cols))
-  | .list [.atom "di", .atom i] => some (.dropIndex i)
+  | .list [.atom "ci", .atom i, .atom n, cols] => do pure (.createIndex (← hexToStr i) n (← decNames cols))
+  | .list [.atom "di", .atom i] => do pure (.dropIndex (← hexToStr i))
+  | .list [.atom "cc", .atom n, .atom o, .atom c] => some (.changeColumn n o c)
+  | .list [.atom "mc", .atom n, .atom c] => some (.modifyColumn n c)
   | .list [.atom "ins", .atom n, r] => do pure (.insert n (← decRow r))
   | .list [.atom "clr", .atom n] => some (.clear n)
   | .list [.atom "ac", .atom n, .atom c] => some (.addColumn n c)
@@ -34,12 +37,13 @@ def encState (e : Option DErr) (s : DState) : Sx :=
   .list [encErrD e,
     .list (.atom "catalog" :: s.catalog.map (fun c => .list [.atom c.1, names c.2])),
     .list (.atom "stored" :: s.stored.map (fun c => .list [.atom c.1, names c.2.cols, encRows c.2.rows])),
-    .list (.atom "reg" :: s.reg.map (fun ix => .list [.atom ix.name, .atom ix.table, names ix.cols]))]
+    .list (.atom "reg" :: s.reg.map (fun ix => .list [.atom (strToHex ix.name), .atom ix.table, names ix.cols])),
+    .list (.atom "sreg" :: s.sreg.map (fun e => .list [.atom (strToHex e.1), .atom (strToHex e.2.name), .atom e.2.table, names e.2.cols]))]
 
 def traceFrom (s : DState) : List DOp → List Sx
   | [] => []
   | op :: ops =>
-    let r := step s op
+    let r := step String.toUpper s op
     encState r.2 r.1 :: traceFrom r.1 ops
 
 def handle : List Sx → Sx
